@@ -54,7 +54,8 @@ def run_case(spec):
     rng = world.work_rng
     dp = DilatedPair(world, ping_interval=rng.choice([None, 5.0]))
     twins = spec["kind"] == "twins"
-    drv = ScriptDriver(dp, rng, late_listen=0.0 if twins else 0.2, pauses=spec.get("pauses", 0))
+    drv = ScriptDriver(dp, rng, late_listen=0.0 if twins else 0.2, pauses=spec.get("pauses", 0),
+                       reactive=(12 if (spec["kind"] == "random" and spec["seed"] % 3 == 0) else 0))
     by = None
     if twins or spec.get("bystander", spec["seed"] % 4 == 1):
         # a second, undisturbed dilated pair in the same process: nothing of one pair may reach the other
@@ -182,7 +183,7 @@ def run_case(spec):
     viol = []
     counters = {"kills": kills["done"], "kills_skipped": kills["skipped"], "opens": len(drv.opens),
                 "writes_delivered": 0, "complete": int(complete), "bystander_pairs": int(by is not None), "twin_cases": int(twins),
-                "app_pauses": drv.pauses_done, "app_resumes_while_offline": drv.resumes_offline}
+                "app_pauses": drv.pauses_done, "calls_from_inside_protocol_callbacks": drv.reactions_done, "app_resumes_while_offline": drv.resumes_offline}
 
     def wit(extra=None):
         w = {"spec": spec, "roles": {n: str(dp.role(n)) for n in "AB"}, "states": {n: dp.mstate(n) for n in "AB"},
